@@ -506,7 +506,7 @@ func (p *Projection) internRow() Key {
 	}
 
 	// Update observation orders.
-	for _, field := range p.Fields() {
+	for _, field := range p.FlattenedFields() {
 		if field.order == nil {
 			// Not tracking observation order for this field.
 			continue
